@@ -120,6 +120,35 @@ fn clip(data: &[u8]) -> Vec<i64> {
     }
 }
 
+/// all 2^16 character values of a clipboard cell record, one 1x1 layer each
+/// -> [accepted, rejected, first rejected, last rejected, accepted whose stored char differs or is not a scalar]
+fn clip_sweep() -> Vec<i64> {
+    let (mut some, mut none, mut first, mut last, mut wrong) = (0i64, 0i64, -1i64, -1i64, 0i64);
+    for v in 0..=0xFFFFu32 {
+        let mut d = vec![0u8; 17];
+        d[9] = 1;
+        d[13] = 1;
+        d.extend([(v & 255) as u8, (v >> 8) as u8, 0, 0, 0, 0, 0, 0, 0, 0, 7, 0, 0, 0]);
+        match Layer::from_clipboard_data(&d) {
+            None => {
+                none += 1;
+                if first < 0 {
+                    first = v as i64;
+                }
+                last = v as i64;
+            }
+            Some(l) => {
+                some += 1;
+                let c = cell_code(&l.get_char((0, 0)).ch);
+                if c != v || !is_scalar(c) {
+                    wrong += 1;
+                }
+            }
+        }
+    }
+    vec![some, none, first, last, wrong]
+}
+
 /// load an .icy file -> [1] on Err; [0, invalid cells, invalid strings, n layers, (title len, title bytes…, image?,
 /// w, h, line count, cells w*h…)*, n fonts, (slot, name len, name bytes…)*]
 fn icy(data: &[u8]) -> Vec<i64> {
@@ -366,6 +395,7 @@ pub fn run(kind: &str, args: &[&str]) -> Option<Obs> {
         }
         "c10fill" => Ok(fill(&String::from_utf8(unhex(args[0])).unwrap())),
         "c10clip" => Ok(clip(&unhex(args[0]))),
+        "c10clipsweep" => Ok(clip_sweep()),
         "c10icy" => Ok(icy(&unhex(args[0]))),
         "c10font" => Ok(font(args[0], args[1].parse().unwrap(), args[2].parse().unwrap(), args[3].parse().unwrap())),
         "c10hexmacro" => Ok(hexmacro(&String::from_utf8(unhex(args[0])).unwrap())),
